@@ -128,7 +128,14 @@ def run(rep):
                 rep.note("git status failed: %s" % st["git"]["err"][:80])
             elif st["dulwich"] != st["git"]:
                 d = diffstat(st["dulwich"], st["git"])
-                rep.fail("status-differs-from-git:" + "+".join(sorted(d)), "porcelain.status vs git status (dulwich, git): %s" % d, c2)
+                du, gu = set(st["dulwich"].get("unstaged", [])), set(st["git"].get("unstaged", []))
+                truth = st.get("truth") or {}
+                if sorted(d) == ["unstaged"] and not (gu - du) and all(truth.get(x) == "changed" for x in du - gu):
+                    # dulwich is right about these paths; git is fooled by an index dulwich rewrote without smudging
+                    # racily clean entries (same size, same second): the recorded finding, met on a random session
+                    rep.fail("corpus:racily-clean-entries-not-smudged", "git misses %s, really modified; dulwich reports them (git's view of the index dulwich wrote)" % sorted(bytes.fromhex(x).decode("latin1") for x in du - gu), c2)
+                else:
+                    rep.fail("status-differs-from-git:" + "+".join(sorted(d)), "porcelain.status vs git status (dulwich, git): %s" % d, c2)
         for sw in r.get("switches", []):
             c2 = dict(case, switch=(sw["from"], sw["to"]))
             if "exc" in sw:
